@@ -202,9 +202,10 @@ def _pinned_set():
 
 class _CallView:
     """a call of an inlined closure/helper body presented to the rule's call_sym: its destination is never the rule's `_0`"""
-    def __init__(self, c):
+    def __init__(self, c, ns=None):
         self._c = c
         self.dest = ("inlined", c.dest) if c.dest == 0 else c.dest
+        self.bb = (ns, c.bb)            # never equal to a block number of the rule's own body
 
     def __getattr__(self, k):
         return getattr(self._c, k)
@@ -282,7 +283,7 @@ def words_of(body, call_sym, edge_sym=None, stmt_sym=None, start=0, stops=(), ke
     # tail): symbols that depend on them are evaluated once per choice of definition and resolved per word by the
     # definition the path actually passed (path-sensitive origins instead of a phi)
     multi = {}
-    if _origins is None and _depth == 0:
+    if _origins is None or isinstance(_origins, SubstOrigins):
         try:
             cyc_ = body.cyclic_blocks(succ) if succ is not None else body.cyclic_blocks()
         except Exception:
@@ -305,8 +306,16 @@ def words_of(body, call_sym, edge_sym=None, stmt_sym=None, start=0, stops=(), ke
         """evaluate a symbol callback; if it met multi-definition locals, evaluate it per choice of definition"""
         if not multi:
             return f(o)
-        bo = ChoiceOrigins(body, multi, {})
-        x0 = f(bo)
+
+        def mk(choice_):
+            co_ = ChoiceOrigins(body, multi, choice_)
+            if isinstance(_origins, SubstOrigins):
+                so_ = SubstOrigins(body, _origins.mapping)
+                so_.base = co_
+                return so_, co_
+            return co_, co_
+        bo_w, bo = mk({})
+        x0 = f(bo_w)
         if not bo.touched:
             return x0
         locs = tuple(sorted(bo.touched))
@@ -318,7 +327,7 @@ def words_of(body, call_sym, edge_sym=None, stmt_sym=None, start=0, stops=(), ke
         import itertools
         table = []
         for combo in itertools.product(*[range(len(multi[l_])) for l_ in locs]):
-            v_ = f(ChoiceOrigins(body, multi, dict(zip(locs, combo))))
+            v_ = f(mk(dict(zip(locs, combo)))[0])
             table.append((combo, ("\x00list", tuple(v_)) if isinstance(v_, list) else v_))
         x0h = ("\x00list", tuple(x0)) if isinstance(x0, list) else x0
         if all(v_ == x0h for _, v_ in table):
@@ -494,7 +503,7 @@ def words_of(body, call_sym, edge_sym=None, stmt_sym=None, start=0, stops=(), ke
             if bb in inl:
                 out.append(("\x00alt", tuple(tuple(a_) for a_ in inl[bb])))
             else:
-                cv_ = _CallView(c) if _depth > 0 else c
+                cv_ = _CallView(c, _ns or body.path) if _depth > 0 else c
                 x = resolve(lambda oo: call_sym(cv_, oo))
                 if x is not None:
                     out.append(x)
@@ -1628,11 +1637,12 @@ def function_cases(prog, body, atom, ret_kinds=("Some", "None", "Ok", "Err", "tr
                     want |= {"Continue": {"Some", "Ok"}, "Break": {"None", "Err"}}.get(l_, {l_}) if via_try else {l_}
                 alts = tuple(c_ for c_, o_ in vc if o_ in want)
                 return ("\x00fcases", alts)
-            return f"?discr({show(r)[:40]})={lab}"
+            # a test the rule does not name: an opaque condition of this path (does not poison the rows)
+            return ("\x00fcases", (((f"?{show(r)[:40]}", lab),),))
         vc = value_cases(prog, subj, atom)
         if vc and all(o_ in ("true", "false") for _, o_ in vc) and labels in ({"true"}, {"false"}):
             return ("\x00fcases", tuple(c_ for c_, o_ in vc if o_ == ("true" if labels == {"true"} else "false")))
-        return f"?cond({show(subj)[:40]})={lab}"
+        return ("\x00fcases", (((f"?{show(subj)[:40]}", lab),),))
 
     def ret_of(t, o):
         vc = value_cases(prog, t, atom)
